@@ -10,8 +10,16 @@ TABLE = [
     ("atsp", None, 4, 5),
     ("cvrp", None, 3, 4),
     ("sdvrp", None, 2, 3),
-    ("op", None, 3, 3),
-]
+    ("op", None, 3, 4),
+    ("pctsp", None, 3, 4),
+    ("spctsp", None, 3, 4),
+    ("pdp", "free", 4, 6),
+    ("pdp", "depot", 4, 6),
+    ("mtsp", "minmax", 3, 4),
+    ("mtsp", "sum", 3, 4),
+    ("svrp", None, 3, 4),
+    ("cvrptw", None, 3, 4),
+] + [("mtvrp", v, 3, 3) for v in ("", "O", "B", "L", "TW", "OTW", "OB", "OL", "BL", "BTW", "LTW", "OBL", "OBTW", "OLTW", "BLTW", "OBLTW")]
 
 
 def plan(prop, tier, seed, B_quick=1):
@@ -19,7 +27,14 @@ def plan(prop, tier, seed, B_quick=1):
     for spec, variant, nq, nt in TABLE:
         if spec not in EV.SPECS:
             continue
-        sizes = [(nq, B_quick)] if tier == "quick" else [(nq, 2), (nt, 1)]
+        if prop == "C02":
+            # mixed finished / unfinished rows need B=2; kept small in quick (rows finish at different steps from n=2 on)
+            small = max(2, nq - 1)
+            sizes = [(small, 2), (nq, 1)] if tier == "quick" else [(nq, 2), (nt, 1)]
+        else:
+            sizes = [(nq, B_quick)] if tier == "quick" else [(nq, 2), (nt, 1)]
+        if spec == "pdp":
+            sizes = [(n - n % 2, B) for n, B in sizes]
         for n, B in sizes:
             jobs.append({"id": f"{prop}:{spec}[{variant}] n={n} B={B}", "module": "vf.episodes", "func": "episode_job",
                          "params": dict(spec=spec, variant=variant, n=n, B=B, mode=prop)})
